@@ -23,7 +23,8 @@ Agg(sl, pk, r, comm, bits, size) == [D0 EXCEPT !.typ = "aggregator", !.slot = sl
 OnChain(r, aslot, cbits, bits, len) == [fam |-> "el", r |-> r, aslot |-> aslot, dindex |-> 0, cbits |-> cbits, bits |-> bits, len |-> len]
 B(kind, atts) == [kind |-> kind, atts |-> atts]
 Sizes(sl) == IF GWorld = "on2" THEN (IF sl % 2 = 0 THEN <<3, 2>> ELSE <<2, 3>>) ELSE <<2>>
-(* validator 1: committee 0; validator 2: committee 0 (on1) / 1 (on2); positions change with the epoch in "on2" *)
+(* validator 1: committee 0; validator 2: committee 0 (on1) / 1 (on2); positions change with the epoch in "on2"; the
+   submissions of Data agree with this table (epoch 10 = slots 40..43, epoch 11 = slots 44..47) *)
 DutyOf(ep, v) == IF GWorld = "on2" THEN [v |-> v, slot |-> ep * 4, comm |-> v - 1, pos |-> (ep + v) % 2]
                  ELSE [v |-> v, slot |-> ep * 4, comm |-> 0, pos |-> v - 1]
 Data == CASE GWorld = "off" ->
@@ -32,10 +33,10 @@ Data == CASE GWorld = "off" ->
                 Att(S0, "a", 1, 1, 0, 0, 2), Prop(S0 + 3, "a", FALSE, FALSE)}
           [] GWorld = "on1" ->
                {Att(S0, "a", 1, 1, 0, 0, 2), Att(S0, "b", 1, 2, 0, 1, 2), Att(S0, "b", 2, 2, 0, 1, 2), Agg(S0, "a", 1, 0, {0, 1}, 2),
-                Agg(S0, "b", 1, 0, {1}, 2), Prop(S0 + 1, "a", FALSE, FALSE), Prop(S0 + 2, "a", FALSE, TRUE), Att(S0 + 3, "a", 1, 1, 0, 0, 2)}
+                Agg(S0, "b", 1, 0, {1}, 2), Prop(S0 + 1, "a", FALSE, FALSE), Prop(S0 + 2, "a", FALSE, TRUE), Att(S0 + 4, "a", 1, 1, 0, 0, 2)}
           [] OTHER ->
-               {Att(S0, "a", 1, 1, 0, 0, 3), Att(S0, "b", 1, 2, 1, 1, 2), Agg(S0, "a", 1, 1, {0, 1}, 2), Agg(S0, "b", 1, 0, {0}, 3),
-                Prop(S0 + 1, "a", FALSE, FALSE), Att(S0 + 3, "a", 1, 1, 0, 1, 2)}
+               {Att(S0, "a", 1, 1, 0, 1, 3), Att(S0, "b", 1, 2, 1, 0, 2), Agg(S0, "a", 1, 1, {0, 1}, 2), Agg(S0, "b", 1, 0, {1}, 3),
+                Prop(S0 + 1, "a", FALSE, FALSE), Att(S0 + 4, "a", 1, 1, 0, 0, 3)}
 Blocks(sl) ==
   {B("err", <<>>), B("none", <<>>)} \cup
   (CASE GWorld = "off" -> {B("nil", <<>>), B("found", <<>>)}
@@ -50,7 +51,7 @@ Blocks(sl) ==
                 B("atts", <<OnChain(1, S0, <<1>>, {0, 1}, 2), OnChain(1, S0, <<0>>, {0}, 3)>>),
                 B("atts", <<OnChain(7, sl - 1, <<0>>, {0}, IF sl % 2 = 0 THEN 2 ELSE 3), OnChain(1, S0, <<0, 1>>, {0, 4}, 5)>>),
                 B("atts", <<OnChain(1, S0, <<0, 1>>, {0, 4}, 5), OnChain(7, sl - 1, <<1>>, IF sl % 2 = 0 THEN {0} ELSE {1}, IF sl % 2 = 0 THEN 3 ELSE 2)>>)}
-               \cup (IF sl > S0 + 3 THEN {B("atts", <<OnChain(1, S0 + 3, <<0>>, {1}, 2)>>)} ELSE {}))
+               \cup (IF sl > S0 + 4 THEN {B("atts", <<OnChain(1, S0 + 4, <<0, 1>>, {0, 4}, 5)>>)} ELSE {}))
 RECURSIVE SeqOfSet(_)
 SeqOfSet(S) == IF S = {} THEN <<>> ELSE LET m == CHOOSE x \in S : \A y \in S : x <= y IN <<m>> \o SeqOfSet(S \ {m})
 DutyAnswers == {[err |-> TRUE, ds |-> <<>>],
